@@ -79,6 +79,36 @@ def only_maps(r):
     return False
 
 
+def words_of_lookup(ctx, r, key):
+    """r is collect(map(..map(W, f).., g)) over W = map.get(key).into_iter().flat_map(|v| v.split_whitespace()): the Option as an iterator
+    of at most one value, each value replaced by its words -- no words when the key is absent, the value's words in order when present.
+    Returns the collect call, or None."""
+    cs = [x for x in subterms(r) if is_call(x, "::collect")]
+    if len(cs) != 1 or not call_args(cs[0]):
+        return None
+    t = strip_refs(call_args(cs[0])[0])
+    for _ in range(6):
+        if is_call(t, "Iterator>::map", "Iterator::map") and len(call_args(t)) == 2:
+            t = strip_refs(call_args(t)[0])
+        else:
+            break
+    if not (is_call(t, "Iterator::flat_map") and len(call_args(t)) == 2):
+        return None
+    src = strip_refs(call_args(t)[0])
+    if not (is_call(src, "IntoIterator>::into_iter") and "Option" in src[1] and len(call_args(src)) == 1):
+        return None
+    g = strip_refs(call_args(src)[0])
+    if not (is_call(g, "HashMap::get") and const_str(call_args(g)[1]) == key):
+        return None
+    clo = strip_refs(call_args(t)[1])
+    if not (isinstance(clo, tuple) and clo[:2] == ("agg", "closure")):
+        return None
+    rp = ret_paths(ctx.paths(clo[2]) or [])
+    if len(rp) != 1 or not (is_call(rp[0].end[1], "str>::split_whitespace") and deval(strip_refs(call_args(rp[0].end[1])[0])) == ("param", 2)):
+        return None
+    return cs[0]
+
+
 def run(ctx):
     fx = ctx.fx
     if ctx.config == "nodefault":
@@ -177,6 +207,19 @@ def run(ctx):
                         ctx.check(ok, "D1-KEY-FIELD", DK, "field=%s" % f, "%s <- %s (list, written with control flow)" % (f, key), why, fn_span(body))
                         alt_seen.setdefault(f, set()).add(present)
                         continue
+                wl = words_of_lookup(ctx, t, key) if ok and c["kind"] in ("list", "list-result") else None
+                if wl is not None:
+                    # the list as map.get(key).into_iter().flat_map(split_whitespace).map(conv).collect()
+                    if c["kind"] == "list":
+                        ok = strip_refs(t) == wl
+                        why = "list %s is not the collected words of map.get(key) (empty when absent)" % f
+                    else:
+                        via = mentions(wl, lambda s_: s_[0] == "const" and isinstance(s_[2], tuple) and s_[2][0] == "fn" and s_[2][1] == c["via"])
+                        ok = via and "Result" in " ".join(str(g_) for g_ in wl[2][1:]) and has_try(t) and not find_calls(t, "Result::ok", "Result::unwrap_or", "Result::unwrap_or_default") \
+                            and strip_refs(call_args(find_calls(t, "Try>::branch")[0])[0]) == wl if find_calls(t, "Try>::branch") else False
+                        why = "%s is not words.map(%s).collect::<Result<Vec,_>>()? (any bad item fails the record)" % (f, c["via"])
+                    ctx.check(ok, "D1-KEY-FIELD", DK, "field=%s" % f, "%s <- %s (%s, the Option's words flattened)" % (f, key, c["kind"]), why, fn_span(body))
+                    continue
                 if ok:
                     # between the lookup and the field only the combinators of the field's kind may sit: a .filter(..) / .take_if(..) / .or(..)
                     # on the looked-up value would turn some present values into absent ones (or the reverse)
